@@ -24,6 +24,7 @@ import (
 	"github.com/bluenviron/gortsplib/v5/pkg/description"
 	"github.com/bluenviron/gortsplib/v5/pkg/format"
 	"github.com/bluenviron/gortsplib/v5/pkg/headers"
+	"github.com/pion/rtcp"
 	"github.com/pion/rtp"
 
 	"verifharness/internal/bed"
@@ -63,7 +64,8 @@ func driveC02T(a *args, s *vt.Sink) error {
 		kinds := []string{"live_play_tcp", "live_play_udp", "live_record_tcp", "live_record_udp",
 			"silent_play_udp", "silent_record_udp", "control_only_play_udp",
 			"control_options_play_udp", "reconnect_options_play_udp", "reconnect_getparam_play_udp",
-			"slow_record_udp", "repause_record_udp", "silent_play_tcp", "silent_play_tunnel"}
+			"slow_record_udp", "repause_record_udp", "silent_play_tcp", "silent_play_tunnel",
+			"lapse_play_udp", "lapse_record_udp"}
 		grid := [][3]int{{3000, 2000, 200}}
 		if a.tier == "thorough" {
 			grid = [][3]int{{2000, 2000, 200}, {3000, 2000, 500}, {2000, 3000, 1000}, {6000, 2000, 200}, {7000, 2500, 300}}
@@ -191,7 +193,7 @@ func c02tRun(sc *c02tScn, s *vt.Sink) error {
 		}
 		tr.Emit("live", "kind", sc.Kind, "ms", int(time.Since(t0).Milliseconds()), "expired", expired)
 	case "silent_play_udp", "silent_record_udp", "control_only_play_udp", "slow_record_udp", "repause_record_udp",
-		"control_options_play_udp", "reconnect_options_play_udp", "reconnect_getparam_play_udp":
+		"lapse_play_udp", "lapse_record_udp", "control_options_play_udp", "reconnect_options_play_udp", "reconnect_getparam_play_udp":
 		peer, err := bd.Dial()
 		if err != nil {
 			return err
@@ -231,7 +233,8 @@ func c02tRun(sc *c02tScn, s *vt.Sink) error {
 			return err
 		}
 		defer u2.Close()
-		record := sc.Kind == "silent_record_udp" || sc.Kind == "slow_record_udp" || sc.Kind == "repause_record_udp"
+		record := sc.Kind == "silent_record_udp" || sc.Kind == "slow_record_udp" || sc.Kind == "repause_record_udp" ||
+			sc.Kind == "lapse_record_udp"
 		setup := func(track int) error {
 			th := headers.Transport{Protocol: headers.TransportProtocolUDP}
 			d := headers.TransportDeliveryUnicast
@@ -306,6 +309,13 @@ func c02tRun(sc *c02tScn, s *vt.Sink) error {
 				break
 			}
 			timeout = sc.ReadMs // RECORD over UDP: no packets for ReadTimeout
+			if sc.Kind == "lapse_record_udp" {
+				// live for a while, THEN silent: the timeout runs from the last packet
+				for t := time.Now(); time.Since(t) < time.Duration(sc.ReadMs/2+300)*time.Millisecond; {
+					media()
+					time.Sleep(200 * time.Millisecond)
+				}
+			}
 		} else {
 			if err := setup(0); err != nil {
 				return err
@@ -314,6 +324,17 @@ func c02tRun(sc *c02tScn, s *vt.Sink) error {
 				return err
 			}
 			timeout = sc.IdleMs // PLAY over UDP: neither requests nor RTCP for IdleTimeout
+			if sc.Kind == "lapse_play_udp" {
+				// live on the media path for a while (receiver reports from the negotiated RTCP
+				// port), THEN silent on both paths: the timeout runs from the last sign of life
+				rr := &rtcp.ReceiverReport{SSRC: 0x0C02C02D}
+				for t := time.Now(); time.Since(t) < time.Duration(sc.IdleMs/2+300)*time.Millisecond; {
+					if buf, err := rr.Marshal(); err == nil {
+						u2.WriteTo(buf, &net.UDPAddr{IP: net.ParseIP(bd.IP), Port: bd.UDPPort + 1}) //nolint:errcheck
+					}
+					time.Sleep(200 * time.Millisecond)
+				}
+			}
 		}
 		t0 := time.Now()
 		if strings.HasPrefix(sc.Kind, "reconnect_") {
